@@ -47,7 +47,7 @@ class State:
         s = State([dict(f) for f in self.frames], dict(self.heap), list(self.pc), self.old)
         s.frame_locals = list(self.frame_locals)
         s.ghost_log = list(self.ghost_log)
-        for k in ('trail', 'current_exc', 'ki', 'ki_points', 'ki_exc', 'done_stack', 'fault_trail'):
+        for k in ('trail', 'current_exc', 'ki', 'ki_points', 'ki_exc', 'done_stack', 'fault_trail', 'via_loop'):
             if hasattr(self, k):
                 setattr(s, k, getattr(self, k))
         return s
@@ -352,6 +352,9 @@ class Engine:
         if status == 'refuted':
             if ob.status != 'refuted':
                 ob.model = model
+                # a finite-scope counter-model found AFTER a loop was abstracted by its (Houdini-selected) invariant is exact only
+                # if that invariant is strong enough; for new or changed loops it may be an artefact of a too-small candidate pool
+                ob.detail = (ob.detail + ' ' if ob.detail else '') + ('[via-loop]' if getattr(st, 'via_loop', False) else '')
             ob.status = 'refuted'
         elif status == 'open' and ob.status == 'discharged':
             ob.status = 'open'
@@ -973,6 +976,13 @@ class Evaluator:
         for ok, kind, d in rb:
             self.may_raise.append((z3.Implies(z3.Not(c), ok), kind, d))
         a, b = self.fix_empty(a, b)
+        # `None if c else x` / `x if c else None`: an Optional of x's type
+        if a.t.k == 'none' and b.t.k not in ('none', 'opt'):
+            a = SV(OPT(b.t), {'none': z3.BoolVal(True), 'v': self.ctx.fresh(b.t, 'nil')})
+            b = SV(OPT(b.t), {'none': z3.BoolVal(False), 'v': b.z})
+        elif b.t.k == 'none' and a.t.k not in ('none', 'opt'):
+            b = SV(OPT(a.t), {'none': z3.BoolVal(True), 'v': self.ctx.fresh(a.t, 'nil')})
+            a = SV(OPT(a.t), {'none': z3.BoolVal(False), 'v': a.z})
         a, b = self.eng.unify(a, b)
         return SV(a.t, self.ctx.ite(a.t, c, a.z, b.z))
 
@@ -1879,6 +1889,17 @@ class CallEval:
             return self.eng.apply_func(f'type_of_{v.t.name}', [v], parse_type(self.R.funcs[f'type_of_{v.t.name}'][1]))
         raise Unsupported(f'type() of {v.t}')
 
+    def fn_getattr(self, n):
+        """`getattr(x, 'name'[, default])` with a constant name of a DECLARED field/attribute is the attribute read (the
+        attribute exists on every object of that class, so the default is never used); the dynamic two-argument form
+        over dataclass fields goes through its trusted contract."""
+        if len(n.args) in (2, 3) and isinstance(n.args[1], ast.Constant) and isinstance(n.args[1].value, str):
+            return self.e.ev(ast.copy_location(ast.Attribute(value=n.args[0], attr=n.args[1].value, ctx=ast.Load()), n))
+        c = self.eng.resolve_function('getattr')
+        if c is not None and c.pure and len(n.args) == 2:
+            return self.pure_contract(c, None, n)
+        raise Unsupported('getattr with a computed name and a default')
+
     def fn_id(self, n):
         v = self.e.ev(n.args[0])
         # id(x): object identity.  For an instance-sorted value the value itself *is* the identity.
@@ -1889,6 +1910,10 @@ class CallEval:
         raise Unsupported(f'id() of {v.t}')
 
     def fn_isinstance(self, n):
+        if isinstance(n.args[1], ast.Tuple):
+            # isinstance(x, (A, B)) == isinstance(x, A) or isinstance(x, B)
+            parts = [self.fn_isinstance(ast.copy_location(ast.Call(func=n.func, args=[n.args[0], c], keywords=[]), n)).z for c in n.args[1].elts]
+            return SV(BOOL, z3.Or(parts) if parts else z3.BoolVal(False))
         v = self.e.ev(n.args[0])
         cls = n.args[1]
         cname = cls.id if isinstance(cls, ast.Name) else ast.unparse(cls)
